@@ -1006,6 +1006,9 @@ class SqliteCaseReader(BaseCaseReader):
             elif table == 'driver':
                 driver_cases = self._driver_cases.list_cases()
                 case_id = driver_cases[row - 1]
+            elif table == 'problem':
+                problem_cases = self._problem_cases.list_cases()
+                case_id = problem_cases[row - 1]
 
         if recurse:
             return self.get_cases(case_id, recurse=True)
